@@ -24,8 +24,10 @@ func runTimepb(cfg *Cfg) {
 	const minS, maxS = -62135596800, 253402300799
 	secPool := []int64{minS, minS + 1, -1, 0, 1, 10, 1700000000, maxS - 1, maxS}
 	nanoPool := []int32{0, 1, 2, 5, 499999999, 500000000, 999999998, 999999999}
-	dsecPool := []int64{-315576000000, -315575999999, -2, -1, 0, 1, 2, 315575999999, 315576000000}
-	dnanoPool := []int32{0, 1, 5, 999999999, 999999998, 500000000}
+	// incl. the boundary of what a time.Duration can express (±9223372036.854775807 s)
+	dsecPool := []int64{-315576000000, -315575999999, -2, -1, 0, 1, 2, 315575999999, 315576000000,
+		9223372035, 9223372036, 9223372037, -9223372035, -9223372036, -9223372037, 9223372036, -9223372036}
+	dnanoPool := []int32{0, 1, 5, 999999999, 999999998, 500000000, 854775806, 854775807, 854775808, 854775809}
 	n := 30000
 	if cfg.Tier == "thorough" {
 		n = 1000000
